@@ -25,6 +25,7 @@ type Checked struct {
 	Info   *types.Info
 	Parse  []string // parse errors
 	Errs   []string // type errors (unused var/import filtered)
+	ErrPos []token.Pos
 	Unused int      // filtered messages
 }
 
@@ -98,8 +99,10 @@ func Check(texts map[string]string, imp types.Importer, pkgPath string) *Checked
 		Importer: imp,
 		Error: func(err error) {
 			msg := err.Error()
+			pos := token.NoPos
 			if te, ok := err.(types.Error); ok {
 				msg = te.Msg
+				pos = te.Pos
 				if te.Soft && isUnused(msg) {
 					c.Unused++
 					return
@@ -110,6 +113,7 @@ func Check(texts map[string]string, imp types.Importer, pkgPath string) *Checked
 				return
 			}
 			c.Errs = append(c.Errs, msg)
+			c.ErrPos = append(c.ErrPos, pos)
 		},
 	}
 	c.Pkg, _ = conf.Check(pkgPath, c.Fset, c.Files, c.Info)
@@ -451,4 +455,23 @@ func NormMsg(msg string) string {
 		parts = append(parts, strings.Join(ws, " "))
 	}
 	return cat + ":" + strings.Join(parts, " ")
+}
+
+// ErrsByFunc attributes each type error to the top-level function declaration that contains
+// its position ("" when outside any function).
+func (c *Checked) ErrsByFunc() map[string][]string {
+	out := map[string][]string{}
+	for i, msg := range c.Errs {
+		name := ""
+		pos := c.ErrPos[i]
+		for _, f := range c.Files {
+			for _, d := range f.Decls {
+				if fd, ok := d.(*ast.FuncDecl); ok && fd.Pos() <= pos && pos <= fd.End() {
+					name = fd.Name.Name
+				}
+			}
+		}
+		out[name] = append(out[name], msg)
+	}
+	return out
 }
